@@ -58,8 +58,21 @@ def gen(rng, tier):
                 ons = rng.choice(SPELLINGS + [defgen.rnd_prefix(rng)])
                 if r < 0.6:
                     hist.append({"xml": xmlgen.document_xml(other, ons), "prefix": prefix_of(ons)})
-                elif r < 0.8:   # fails after parsing (dangling type reference)
+                elif r < 0.7:   # fails after parsing (dangling type reference)
                     hist.append({"xml": xmlgen.document_xml(other, ons).replace('parameterTypeRef="', 'parameterTypeRef="NOPE_', 1), "prefix": prefix_of(ons)})
+                elif r < 0.9:   # fails INSIDE the container set, part-way through (state left behind by a half-finished container parse)
+                    ox = xmlgen.document_xml(rng.choice([other, doc]), ons)
+                    kind = rng.choice(["entry", "base", "nested"])
+                    if kind == "entry":         # the LAST parameter entry of the document names no parameter
+                        k = ox.rfind('ParameterRefEntry parameterRef="')
+                        ox = ox[:k] + ox[k:].replace('parameterRef="', 'parameterRef="NOPE_', 1) if k >= 0 else ox
+                    elif kind == "base" and 'BaseContainer containerRef="' in ox:
+                        k = ox.rfind('BaseContainer containerRef="')
+                        ox = ox[:k] + ox[k:].replace('containerRef="', 'containerRef="NOPE_', 1)
+                    elif 'ContainerRefEntry containerRef="' in ox:
+                        k = ox.rfind('ContainerRefEntry containerRef="')
+                        ox = ox[:k] + ox[k:].replace('containerRef="', 'containerRef="NOPE_', 1)
+                    hist.append({"xml": ox, "prefix": prefix_of(ons)})
                 else:           # malformed XML: fails before anything is stored
                     hist.append({"xml": "<xtce:SpaceSystem><unclosed>", "prefix": "xtce"})
             cases.append({"plain": plain, "variant": variant, "vprefix": prefix_of(ns), "history": hist, "mode": mode, "ns": ns[0] + (ns[1] if len(ns) > 1 else "")})
